@@ -17,6 +17,7 @@ import (
 
 	"github.com/cube2222/octosql/config"
 	"github.com/cube2222/octosql/plugins/repository"
+	"github.com/cube2222/octosql/plugins/verifhook"
 )
 
 type PluginManager struct {
@@ -196,10 +197,12 @@ func (m *PluginManager) Install(ctx context.Context, name string, constraint *se
 	// is never visible as an installed version.
 	stagingDir := filepath.Join(getPluginDir(), stagingDirName)
 
+	verifhook.RemoveAll("install.clean-staging", stagingDir)
 	if err := os.RemoveAll(stagingDir); err != nil {
 		return fmt.Errorf("couldn't remove old staging directory: %w", err)
 	}
 
+	verifhook.MkdirAll("install.make-staging", stagingDir)
 	if err := os.MkdirAll(stagingDir, os.ModePerm); err != nil {
 		return fmt.Errorf("couldn't create staging directory: %w", err)
 	}
@@ -218,12 +221,14 @@ func (m *PluginManager) Install(ctx context.Context, name string, constraint *se
 		}
 		defer res.Body.Close()
 
+		verifhook.Create("install.create-archive", archiveFilePath)
 		f, err := os.Create(archiveFilePath)
 		if err != nil {
 			return fmt.Errorf("couldn't create plugin archive file: %w", err)
 		}
 		defer f.Close()
 
+		verifhook.Copy("install.download", f, res.Body)
 		if _, err := io.Copy(f, res.Body); err != nil {
 			return fmt.Errorf("couldn't download plugin archive: %w", err)
 		}
@@ -233,22 +238,27 @@ func (m *PluginManager) Install(ctx context.Context, name string, constraint *se
 		return err
 	}
 
+	verifhook.Unarchive("install.unarchive", archiveFilePath, stagingDir)
 	if err := archiver.NewTarGz().Unarchive(archiveFilePath, stagingDir); err != nil {
 		return fmt.Errorf("couldn't unarchive plugin archive: %w", err)
 	}
 
+	verifhook.Remove("install.remove-archive", archiveFilePath)
 	if err := os.Remove(archiveFilePath); err != nil {
 		return fmt.Errorf("couldn't remove plugin archive: %w", err)
 	}
 
+	verifhook.MkdirAll("install.make-parent", filepath.Dir(newPluginDir))
 	if err := os.MkdirAll(filepath.Dir(newPluginDir), os.ModePerm); err != nil {
 		return fmt.Errorf("couldn't create plugins directory: %w", err)
 	}
 
+	verifhook.RemoveAll("install.remove-old", newPluginDir)
 	if err := os.RemoveAll(newPluginDir); err != nil {
 		return fmt.Errorf("couldn't remove old plugin directory: %w", err)
 	}
 
+	verifhook.Rename("install.move", stagingDir, newPluginDir)
 	if err := os.Rename(stagingDir, newPluginDir); err != nil {
 		return fmt.Errorf("couldn't move plugin into place: %w", err)
 	}
